@@ -2,6 +2,7 @@ import Norad.Base.Proto
 import Driver.C11
 import Driver.C06
 import Driver.C08
+import Driver.C09
 import Driver.C17
 /-!
 # Line-protocol driver
@@ -17,6 +18,7 @@ def dispatch (inp obs : List String) : Verdict :=
   | some "C11" => Driver.C11.run inp obs
   | some "C06" => Driver.C06.run inp obs
   | some "C08" => Driver.C08.run inp obs
+  | some "C09" => Driver.C09.run inp obs
   | some "C17" => Driver.C17.run inp obs
   | _ => { agree := false, model := "unknown-model" }
 
